@@ -670,9 +670,12 @@ LADS = [lad_strlen, lad_siblings, lad_elements, lad_ghosts, lad_skipdepth, lad_d
 
 
 def collect(ctx):
+    """the ladders are the same on every run; what the seed draws: contents, flavors, strategies, schedules, skip mechanisms.  The thorough
+    tier walks them three times with different draws"""
     L = Lad(ctx)
-    for f in LADS:
-        f(L)
+    for _rep in range(ctx.scale(1, 3)):
+        for f in LADS:
+            f(L)
     return L.items
 
 
